@@ -163,6 +163,7 @@ Section Query.
   Variable filtered : bool.                    (* WHERE or RANGE present: the cursor wraps the merge into a fiterator *)
   Variable flt : oev -> bool.                  (* fltF(&le) && fitInRange() *)
   Variable choose : nat -> list (option oev) -> nat.   (* which non-exhausted source the merge delivers next *)
+  Variable strict : bool.                      (* GetOrCreate never re-positions a cached cursor (see get_or_create) *)
 
   (* Get on every source (Mixer.selectState down the tree) *)
   Fixpoint poll (st : store) (i : nat) (ls : list lei) : list lei * list (option oev) :=
@@ -293,22 +294,22 @@ Section Query.
 
   Definition evict_all (pv : provider) : provider := mkProv [] (pv_next pv).     (* sweepByTime with every idle cursor expired *)
 
-  (* GetOrCreate *)
+  (* GetOrCreate. `strict` = the provider drops a cached cursor whose position differs from the requested one and
+     builds a new one under the same id (proposed fix); the unchanged tree re-positions the cached cursor *)
   Definition get_or_create (st : store) (pv : provider) (id : N) (pos : pos_t) (cache : bool) : provider * cursor :=
-    let hit := if (0 <? id)%N then match cache_get id (pv_cache pv) with
-                                   | Some c => match apply_state st c pos with Some c' => Some c' | None => None end
-                                   | None => None
-                                   end
-               else None in
+    let cached := if (0 <? id)%N then cache_get id (pv_cache pv) else None in
+    let stale := match cached with Some c => strict && negb (pos_t_eqb (cu_pos c) pos) | None => false end in
+    let hit := if stale then None else match cached with Some c => apply_state st c pos | None => None end in
     match hit with
     | Some c => (pv, c)
     | None =>
-        let failed_apply := if (0 <? id)%N then match cache_get id (pv_cache pv) with Some _ => true | None => false end else false in
+        let cache0 := if stale then cache_del id (pv_cache pv) else pv_cache pv in
+        let failed_apply := match cached with Some _ => negb stale | None => false end in   (* ApplyState error: state.Id = 0 *)
         let fresh := orb (id =? 0)%N failed_apply in
         let id' := if fresh then pv_next pv else id in
         let nx := if fresh then (pv_next pv + 1)%N else pv_next pv in
         let c := new_cursor st id' pos in
-        (mkProv (if cache then cache_put id' c (pv_cache pv) else pv_cache pv) nx, c)
+        (mkProv (if cache then cache_put id' c cache0 else cache0) nx, c)
     end.
 
   (* Release: commit; the returned id is 0 when the cursor is not cached *)
@@ -487,3 +488,6 @@ Definition flt_of (q : qfilter) (ev : oev) : bool :=
 (* the behaviour of the tree under check: false = LogEvent.Unmarshal leaves Fields of the previous record
    in place when the record has none (unchanged /repo); flip to true when the proposed fix is applied *)
 Definition repo_clears_fields : bool := false.
+(* false = provider.GetOrCreate re-positions a cached cursor when the request names another Pos (unchanged /repo);
+   flip to true when the proposed provider fix (proposed_fixes/C03-stale-peek-on-retried-page) is applied *)
+Definition repo_strict_pos : bool := false.
